@@ -497,7 +497,9 @@ class FlatteningRestriction(klass.GenericEquality, base):
     """Flatten the values passed in and apply the nested restriction."""
 
     __slots__ = __attr_comparison__ = ("dont_iter", "restriction", "negate")
-    __hash__ = object.__hash__
+
+    def __hash__(self):
+        return hash((self.dont_iter, self.restriction, self.negate))
 
     def __init__(self, dont_iter, childrestriction, negate=False):
         """
@@ -531,9 +533,10 @@ class FunctionRestriction(klass.GenericEquality, base):
     """Convenience class for creating special restrictions."""
 
     __attr_comparison__ = __slots__ = ("func", "negate")
-    # TODO: figure out a correct way to say "hashable, but the hash is the id".
-    # Type checker is pissy about just using a raw id()
-    __hash__ = object.__hash__
+
+    # equal instances (same function, same negation) must hash alike
+    def __hash__(self):
+        return hash((self.func, self.negate))
 
     def __init__(self, func, negate=False):
         """
